@@ -219,6 +219,7 @@ static int16_t get_loop_mode (int16_t mode) ;
 static int aiff_read_basc_chunk (SF_PRIVATE * psf, int) ;
 
 static int aiff_read_chanmap (SF_PRIVATE * psf, unsigned dword) ;
+static uint32_t aiff_read_text_chunk (SF_PRIVATE * psf, unsigned marker, uint32_t chunk_size, int str_type) ;
 
 static uint32_t marker_to_position (const MARK_ID_POS *m, uint16_t n, int marksize) ;
 
@@ -584,40 +585,11 @@ aiff_read_header (SF_PRIVATE *psf, COMM_CHUNK *comm_fmt)
 					break ;
 
 			case c_MARKER :
-					if (chunk_size == 0)
-						break ;
-					if (chunk_size >= SIGNED_SIZEOF (ubuf.scbuf))
-					{	psf_log_printf (psf, " %M : %d (too big, skipping)\n", marker, chunk_size) ;
-						psf_binheader_readf (psf, "j", chunk_size) ;
-						break ;
-						} ;
-
-					cptr = ubuf.cbuf ;
-					psf_binheader_readf (psf, "b", cptr, chunk_size + (chunk_size & 1)) ;
-					cptr [chunk_size] = 0 ;
-
-					psf_sanitize_string (cptr, chunk_size) ;
-
-					psf_log_printf (psf, " %M : %s\n", marker, cptr) ;
-					psf_store_string (psf, SF_STR_COPYRIGHT, cptr) ;
-					chunk_size += chunk_size & 1 ;
+					chunk_size = aiff_read_text_chunk (psf, marker, chunk_size, SF_STR_COPYRIGHT) ;
 					break ;
 
 			case AUTH_MARKER :
-					if (chunk_size == 0)
-						break ;
-					if (chunk_size >= SIGNED_SIZEOF (ubuf.scbuf) - 1)
-					{	psf_log_printf (psf, " %M : %d (too big, skipping)\n", marker, chunk_size) ;
-						psf_binheader_readf (psf, "j", chunk_size) ;
-						break ;
-						} ;
-
-					cptr = ubuf.cbuf ;
-					psf_binheader_readf (psf, "b", cptr, chunk_size + (chunk_size & 1)) ;
-					cptr [chunk_size] = 0 ;
-					psf_log_printf (psf, " %M : %s\n", marker, cptr) ;
-					psf_store_string (psf, SF_STR_ARTIST, cptr) ;
-					chunk_size += chunk_size & 1 ;
+					chunk_size = aiff_read_text_chunk (psf, marker, chunk_size, SF_STR_ARTIST) ;
 					break ;
 
 			case COMT_MARKER :
@@ -655,20 +627,27 @@ aiff_read_header (SF_PRIVATE *psf, COMM_CHUNK *comm_fmt)
 
 					if (chunk_size == 0)
 						break ;
-					if (chunk_size >= SIGNED_SIZEOF (ubuf.scbuf) - 1)
-					{	psf_log_printf (psf, " %M : %u (too big, skipping)\n", marker, chunk_size) ;
-						psf_binheader_readf (psf, "j", chunk_size + (chunk_size & 1)) ;
-						break ;
-						} ;
-
 					if (chunk_size < 4)
 					{	psf_log_printf (psf, " %M : %d (too small, skipping)\n", marker, chunk_size) ;
 						psf_binheader_readf (psf, "j", chunk_size + (chunk_size & 1)) ;
 						break ;
 						} ;
 
-					cptr = ubuf.cbuf ;
-					psf_binheader_readf (psf, "mb", &appl_marker, cptr, chunk_size + (chunk_size & 1) - 4) ;
+					/* As for the other text chunks : a buffer of the size of the chunk, at most what the header cache holds. */
+					if (chunk_size > 100 * 1024 || (cptr = malloc (chunk_size + 2)) == NULL)
+					{	psf_log_printf (psf, " %M : %u (too big, skipping)\n", marker, chunk_size) ;
+						psf_binheader_readf (psf, "j", chunk_size + (chunk_size & 1)) ;
+						break ;
+						} ;
+
+					psf_binheader_readf (psf, "m", &appl_marker) ;
+					if (psf_binheader_readf (psf, "b", cptr, (size_t) (chunk_size + (chunk_size & 1) - 4)) != (int) (chunk_size + (chunk_size & 1) - 4))
+					{	psf_log_printf (psf, " %M : %u (cannot be read, skipping)\n", marker, chunk_size) ;
+						psf_binheader_readf (psf, "j", chunk_size + (chunk_size & 1) - 4) ;
+						free (cptr) ;
+						chunk_size += chunk_size & 1 ;
+						break ;
+						} ;
 					cptr [chunk_size - 4] = 0 ;
 
 					for (k = 0 ; k < (int) chunk_size - 4 ; k++)
@@ -679,42 +658,17 @@ aiff_read_header (SF_PRIVATE *psf, COMM_CHUNK *comm_fmt)
 
 					psf_log_printf (psf, " %M : %d\n  AppSig : %M\n  Name   : %s\n", marker, chunk_size, appl_marker, cptr) ;
 					psf_store_string (psf, SF_STR_SOFTWARE, cptr) ;
+					free (cptr) ;
 					chunk_size += chunk_size & 1 ;
 					} ;
 					break ;
 
 			case NAME_MARKER :
-					if (chunk_size == 0)
-						break ;
-					if (chunk_size >= SIGNED_SIZEOF (ubuf.scbuf) - 2)
-					{	psf_log_printf (psf, " %M : %d (too big, skipping)\n", marker, chunk_size) ;
-						psf_binheader_readf (psf, "j", chunk_size) ;
-						break ;
-						} ;
-
-					cptr = ubuf.cbuf ;
-					psf_binheader_readf (psf, "b", cptr, chunk_size + (chunk_size & 1)) ;
-					cptr [chunk_size] = 0 ;
-					psf_log_printf (psf, " %M : %s\n", marker, cptr) ;
-					psf_store_string (psf, SF_STR_TITLE, cptr) ;
-					chunk_size += chunk_size & 1 ;
+					chunk_size = aiff_read_text_chunk (psf, marker, chunk_size, SF_STR_TITLE) ;
 					break ;
 
 			case ANNO_MARKER :
-					if (chunk_size == 0)
-						break ;
-					if (chunk_size >= SIGNED_SIZEOF (ubuf.scbuf) - 2)
-					{	psf_log_printf (psf, " %M : %d (too big, skipping)\n", marker, chunk_size) ;
-						psf_binheader_readf (psf, "j", chunk_size) ;
-						break ;
-						} ;
-
-					cptr = ubuf.cbuf ;
-					psf_binheader_readf (psf, "b", cptr, chunk_size + (chunk_size & 1)) ;
-					cptr [chunk_size] = 0 ;
-					psf_log_printf (psf, " %M : %s\n", marker, cptr) ;
-					psf_store_string (psf, SF_STR_COMMENT, cptr) ;
-					chunk_size += chunk_size & 1 ;
+					chunk_size = aiff_read_text_chunk (psf, marker, chunk_size, SF_STR_COMMENT) ;
 					break ;
 
 			case INST_MARKER :
@@ -1791,6 +1745,44 @@ aiff_read_basc_chunk (SF_PRIVATE * psf, int datasize)
 	return 0 ;
 } /* aiff_read_basc_chunk */
 
+/*
+**	NAME, AUTH, ANNO and (c) chunks : the text is read into a buffer of the size
+**	of the chunk, so that every string aiff_write_strings () emits can be read
+**	back. Returns the number of bytes consumed (for the chunk loop's pad byte).
+*/
+static uint32_t
+aiff_read_text_chunk (SF_PRIVATE * psf, unsigned marker, uint32_t chunk_size, int str_type)
+{	uint32_t padded = chunk_size + (chunk_size & 1) ;
+	char * cptr ;
+
+	if (chunk_size == 0)
+		return 0 ;
+
+	/* The text is read through the header cache, which holds at most 100k (psf_bump_header_allocation). */
+	if (chunk_size > 100 * 1024 || (cptr = malloc (padded + 1)) == NULL)
+	{	psf_log_printf (psf, " %M : %u (too big, skipping)\n", marker, chunk_size) ;
+		psf_binheader_readf (psf, "j", chunk_size) ;
+		return chunk_size ;
+		} ;
+
+	if (psf_binheader_readf (psf, "b", cptr, (size_t) padded) != (int) padded)
+	{	psf_log_printf (psf, " %M : %u (cannot be read, skipping)\n", marker, chunk_size) ;
+		psf_binheader_readf (psf, "j", chunk_size) ;
+		free (cptr) ;
+		return chunk_size ;
+		} ;
+
+	cptr [chunk_size] = 0 ;
+
+	if (str_type == SF_STR_COPYRIGHT)
+		psf_sanitize_string (cptr, chunk_size) ;
+
+	psf_log_printf (psf, " %M : %s\n", marker, cptr) ;
+	psf_store_string (psf, str_type, cptr) ;
+	free (cptr) ;
+
+	return padded ;
+} /* aiff_read_text_chunk */
 
 static int
 aiff_read_chanmap (SF_PRIVATE * psf, unsigned dword)
